@@ -9,6 +9,7 @@
     is what the run checks (decoded streams = written streams, no discrepancy
     code). *)
 From Coq Require Import List NArith ZArith Lia.
+From Coq Require String.
 From PQ Require Import Base.Bytes Base.BitPack Enc.Rle Enc.RleProofs Enc.DeltaBP Enc.DeltaBPProofs.
 From PQ Require Import Dremel.Model File.Pipeline File.PipelineProofs File.SpecDecoder File.SpecAgreement.
 From PQ Require Import Thrift.Compact Thrift.CompactProofs.
@@ -58,6 +59,41 @@ Proof.
          end.
   repeat split; try (apply Nat.eqb_eq; assumption); try (apply N.eqb_eq; assumption); assumption.
 Qed.
+
+(** The two content checks on what a foreign reader relies on beyond the sums:
+    encoding_stats must count the page headers present per (page type,
+    encoding), and every data page located by an offset index must start a row.
+    Both reject a chunk of one RLE_DICTIONARY and one PLAIN data page declared
+    as two RLE_DICTIONARY pages / whose second page continues a row, and accept
+    the correct declaration. *)
+Definition ex_cpage (enc : Z) (rep : list N) : page :=
+  {| p_offset := 0; p_hlen := 0; p_type := 0; p_comp := 0; p_uncomp := 0; p_ulen := 0; p_crc_present := false;
+     p_crc_ok := true; p_nvalues := length rep; p_nrows := None; p_nnulls := None; p_encoding := enc;
+     p_rep := rep; p_def := []; p_values := [] |}.
+Definition ex_stat (ty enc n : Z) : tval := TStruct [(1%Z, TInt T_I32 ty); (2%Z, TInt T_I32 enc); (3%Z, TInt T_I32 n)].
+Definition ex_cchunk (stats : list tval) (second_rep : list N) : chunk :=
+  {| c_leaf := {| l_path := []; l_type := 1; l_tlen := 0; l_maxr := 1; l_maxd := 1 |};
+     c_meta := TStruct [(13%Z, TList T_STRUCT stats)]; c_chunk := TStruct []; c_start := 0;
+     c_pages := [ex_cpage 8 [0; 1]%N; ex_cpage 0 second_rep] |}.
+Definition ex_oindex : tval :=
+  TStruct [(1%Z, TList T_STRUCT [TStruct [(1%Z, TInt T_I64 0); (2%Z, TInt T_I32 0); (3%Z, TInt T_I64 0)];
+                                 TStruct [(1%Z, TInt T_I64 0); (2%Z, TInt T_I32 0); (3%Z, TInt T_I64 1)]])].
+
+Example C02_ex_encoding_stats_checked :
+  encoding_stats_ok (ex_cchunk [ex_stat 0 8 2] [0]%N) = false /\
+  encoding_stats_ok (ex_cchunk [ex_stat 0 8 1; ex_stat 0 0 1; ex_stat 2 0 1] [0]%N) = false /\
+  encoding_stats_ok (ex_cchunk [ex_stat 0 0 1; ex_stat 0 8 1] [0]%N) = true.
+Proof. vm_compute. repeat split. Qed.
+
+Module ExCodes.
+  Import Coq.Strings.String.
+  Definition mid_row : String.string := "indexed_page_starts_mid_row"%string.
+End ExCodes.
+
+Example C02_ex_indexed_pages_start_rows :
+  check_offset_index (ex_cchunk [] [1; 0]%N) ex_oindex = [ExCodes.mid_row] /\
+  check_offset_index (ex_cchunk [] [0; 1]%N) ex_oindex = [].
+Proof. vm_compute. repeat split. Qed.
 
 (** The thrift compact layer (footer, page headers, page index): the
     specification decoder inverts the encoder on every well-formed value tree:
